@@ -22,6 +22,10 @@ def render_flow(spec: dict) -> str:
     a('        stall timeout = PT100H')
     a('        inactivity timeout = PT1000H')
     a('        abort on stall timeout = False')
+    if 'restart timeout' not in ev:
+        # a restarted, already complete workflow shuts down at once instead
+        # of waiting (2 min by default) for the operator to intervene
+        a('        restart timeout = PT0S')
     for k, v in ev.items():
         a(f'        {k} = {v}')
     a('[scheduling]')
